@@ -435,14 +435,50 @@ func check(c Case) *vfrun.Failure {
 var datas = []string{`null`, `{"x":"a"}`, `{"x":"line\nbreak data: x\n\n"}`, `{"x":"\r\n--graphql--\r\n"}`, `{"x":"---"}`, `{"x":"event: complete"}`, `{}`, `{"x":": ping"}`,
 	`{"x":"é😀 "}`, `{"a":{"b":[1,2,{"c":null}]}}`, `{"x":"` + strings.Repeat("y", 5000) + `"}`}
 
+// chunks a payload string is assembled from: everything a framing layer could trip over (format
+// verbs, line ends, the framing's own keywords and boundaries, quotes, escapes, long runs)
+var chunks = []string{"a", " ", "%", "%s", "%d", "%%", "%!", "100% done", "\n", "\r\n", "\r", "data: ", "event: complete", "event: next\ndata: {}\n\n", ": ping",
+	"--graphql--", "--graphql", "\r\n--b0undary--\r\n", "---", "\"", "\\", "é😀", "\u2028", "\x00", ":", "Content-Type: application/json", "{\"hasNext\":false}"}
+
+func genString(t *rapid.T) string {
+	n := rapid.IntRange(0, 4).Draw(t, "nchunks")
+	var sb strings.Builder
+	for i := 0; i < n; i++ {
+		sb.WriteString(rapid.SampledFrom(chunks).Draw(t, "chunk"))
+	}
+	return sb.String()
+}
+
+// genData draws the data of one payload: a small JSON object over hostile strings.
+func genData(t *rapid.T) string {
+	if rapid.IntRange(0, 2).Draw(t, "fixed?") == 0 {
+		return rapid.SampledFrom(datas).Draw(t, "data")
+	}
+	m := map[string]any{}
+	for i, k := range []string{"x", "y", "z"}[:rapid.IntRange(1, 3).Draw(t, "nkeys")] {
+		switch rapid.IntRange(0, 4).Draw(t, "vkind") {
+		case 0:
+			m[k] = nil
+		case 1:
+			m[k] = i
+		case 2:
+			m[k] = []any{genString(t), map[string]any{genString(t) + "k": genString(t)}}
+		default:
+			m[k] = genString(t)
+		}
+	}
+	b, _ := json.Marshal(m)
+	return string(b)
+}
+
 func gen(t *rapid.T) Case {
 	c := Case{Transport: rapid.SampledFrom([]string{"sse", "mixed"}).Draw(t, "transport"), CutAt: -1}
 	n := rapid.IntRange(1, 12).Draw(t, "npayloads")
 	for i := 0; i < n; i++ {
-		p := Payload{Data: rapid.SampledFrom(datas).Draw(t, "data"), GapUS: rapid.SampledFrom([]int{0, 0, -1, 1, 50, 300, 1500, 3000}).Draw(t, "gap")}
+		p := Payload{Data: genData(t), GapUS: rapid.SampledFrom([]int{0, 0, -1, 1, 50, 300, 1500, 3000}).Draw(t, "gap")}
 		if i > 0 {
 			p.Path = []string{"a", "b"}[:rapid.IntRange(0, 2).Draw(t, "pathlen")]
-			p.Label = rapid.SampledFrom([]string{"", "l1", "l 2"}).Draw(t, "label")
+			p.Label = rapid.SampledFrom([]string{"", "l1", "l 2", "50%", "%s\n"}).Draw(t, "label")
 		}
 		p.Errs = rapid.SampledFrom([]int{0, 0, 0, 1, 2}).Draw(t, "errs")
 		c.Payloads = append(c.Payloads, p)
